@@ -6,7 +6,7 @@
 From Coq Require Import List NArith Bool Lia Permutation Arith PeanoNat.
 From Coq Require Import Strings.Byte.
 From HN Require Import Base.Bytes Base.Cache Base.Tcp Model.HttpFlow Spec.StreamSpec
-  Proofs.CacheProofs Proofs.StreamProofs Proofs.CostProofs Proofs.StreamOoo.
+  Proofs.CacheProofs Proofs.Serial32 Proofs.StreamProofs Proofs.CostProofs Proofs.StreamOoo.
 Import ListNotations.
 Open Scope N_scope.
 
@@ -244,36 +244,77 @@ Proof.
 Qed.
 
 (* ------------------------------------------------------------------ what the model rebuilds *)
-Definition seg_td (isn : N) (x : seg) : tcpdata := mkTd (isn + 1 + fst x) (snd x).
+Definition seg_td (isn : N) (x : seg) : tcpdata := mkTd ((isn + 1 + fst x) mod two32) (snd x).
+(* every received segment starts less than 2^31 - 1 bytes beyond the ISN *)
+Definition near_segs (l : list seg) : Prop := Forall (fun x => fst x < two31 - 1) l.
 
-Lemma asc_segs_ascending isn s : asc_segs s -> ascending (map (seg_td isn) s).
+Lemma seg_td_off isn x : isn < two32 -> fst x < two31 - 1 -> off32 isn (td_seq (seg_td isn x)) = 1 + fst x.
+Proof. intros H1 H2. cbn. apply off32_succ_add; [exact H1 | unfold two31, two32 in *; lia]. Qed.
+
+Lemma win_segs isn data0 segs :
+  data0_ok isn data0 -> isn < two32 -> near_segs segs -> win isn (data0 ++ map (seg_td isn) segs).
 Proof.
-  induction s as [|x s IH]; cbn; intros H; [exact I|]. destruct H as [Fx As]. split; [|auto].
+  intros H0 Hi Hn. apply Forall_app. split.
+  - destruct H0 as [-> | ->]; [constructor|]. constructor; [|constructor]. cbn. rewrite off32_self by exact Hi.
+    split; [exact Hi | unfold two31; lia].
+  - apply Forall_forall. intros d Hd. apply in_map_iff in Hd. destruct Hd as (x & <- & Hx).
+    unfold near_segs in Hn. rewrite Forall_forall in Hn. specialize (Hn x Hx).
+    split; [cbn; apply mod32_lt|]. rewrite seg_td_off by assumption. unfold two31 in *. lia.
+Qed.
+
+(* ascending in the offset from r, inside the window, is ascending in the sort key *)
+Lemma ascending_by_off r c : r < two32 -> win r c ->
+  ascending_k (fun d => off32 r (td_seq d)) c -> ascending_k (sort_key c) c.
+Proof.
+  intros Hr W. assert (G : forall c', (forall x, In x c' -> In x c) ->
+                          ascending_k (fun d => off32 r (td_seq d)) c' -> ascending_k (sort_key c) c').
+  { induction c' as [|x c' IH]; intros Hsub Ha; [exact I|]. destruct Ha as [Hx Hl]. split.
+    - intros y Hy. apply (sort_key_le r c x y Hr W); [apply Hsub; now left | apply Hsub; now right | now apply Hx].
+    - apply IH; auto. intros z Hz. apply Hsub. now right. }
+  apply G. auto.
+Qed.
+
+Lemma asc_segs_off isn s : isn < two32 -> near_segs s -> asc_segs s ->
+  ascending_k (fun d => off32 isn (td_seq d)) (map (seg_td isn) s).
+Proof.
+  intros Hi. induction s as [|x s IH]; cbn [map]; intros Hn H; [exact I|]. destruct H as [Fx As].
+  inversion Hn as [|? ? Nx Ns]; subst. split; [|now apply IH].
   intros y Hy. apply in_map_iff in Hy. destruct Hy as (z & <- & Hz). rewrite Forall_forall in Fx.
-  specialize (Fx z Hz). cbn. lia.
+  unfold near_segs in Ns. rewrite Forall_forall in Ns.
+  rewrite !seg_td_off; auto. specialize (Fx z Hz). lia.
 Qed.
 
 Lemma model_rebuild isn data0 segs :
-  data0_ok isn data0 -> pdisj segs -> Forall nonempty segs ->
+  data0_ok isn data0 -> isn < two32 -> near_segs segs -> pdisj segs -> Forall nonempty segs ->
   full_data (data0 ++ map (seg_td isn) segs) = squeezed segs.
 Proof.
-  intros H0 D NE.
+  intros H0 Hi Hn D NE.
   assert (P : Permutation (seg_sort segs) segs) by apply seg_sort_perm.
-  rewrite (rebuild_order_invariant _ (data0 ++ map (seg_td isn) (seg_sort segs))).
+  assert (Hn' : near_segs (seg_sort segs)) by (eapply Permutation_Forall; [apply Permutation_sym; exact P | exact Hn]).
+  rewrite (rebuild_order_invariant isn _ (data0 ++ map (seg_td isn) (seg_sort segs))).
   - unfold full_data. rewrite sort_td_ascending.
     + rewrite map_app, concat_app, map_map. unfold squeezed. cbn [seg_td td_data].
       destruct H0 as [-> | ->]; reflexivity.
-    + pose proof (asc_segs_ascending isn _ (seg_sort_asc segs)) as A.
-      destruct H0 as [-> | ->]; cbn [app]; [exact A|]. cbn. split; [|exact A].
-      intros y Hy. apply in_map_iff in Hy. destruct Hy as (z & <- & _). cbn. lia.
+    + apply (ascending_by_off isn); [exact Hi | now apply win_segs|].
+      pose proof (asc_segs_off isn _ Hi Hn' (seg_sort_asc segs)) as A.
+      destruct H0 as [-> | ->]; cbn [app]; [exact A|]. split; [|exact A].
+      intros y Hy. cbn [td_seq]. rewrite off32_self by exact Hi. apply N.le_0_l.
   - apply Permutation_app_head, Permutation_map, Permutation_sym, P.
-  - rewrite map_app, map_map. cbn [seg_td td_seq].
-    assert (N1 : NoDup (map (fun x : seg => isn + 1 + fst x) segs)).
-    { pose proof (nodup_offsets segs D NE) as ND. clear -ND. induction segs as [|x l IH]; cbn; [constructor|].
-      inversion ND as [|? ? Hn Hl]; subst. constructor; [|auto].
-      intros Hin. apply in_map_iff in Hin. destruct Hin as (y & Ey & Hy). apply Hn. apply in_map_iff. exists y. split; [lia | exact Hy]. }
+  - exact Hi.
+  - now apply win_segs.
+  - (* distinct offsets give distinct sequence numbers *)
+    apply (nodup_map_impl td_seq (fun d => off32 isn (td_seq d))); [intros x y _ _ E; now rewrite E|].
+    rewrite map_app, map_map.
+    assert (N1 : NoDup (map (fun x : seg => off32 isn (td_seq (seg_td isn x))) segs)).
+    { pose proof (nodup_offsets segs D NE) as ND. unfold near_segs in Hn. clear -ND Hn Hi.
+      induction segs as [|x l IH]; cbn [map]; [constructor|].
+      inversion ND as [|? ? Hx Hl]; subst. inversion Hn as [|? ? Nx Nl]; subst. constructor; [|auto].
+      intros Hin. apply in_map_iff in Hin. destruct Hin as (y & Ey & Hy). apply Hx. apply in_map_iff. exists y.
+      rewrite Forall_forall in Nl. rewrite !seg_td_off in Ey by auto. split; [lia | exact Hy]. }
     destruct H0 as [-> | ->]; cbn [map app]; [exact N1|]. constructor; [|exact N1].
-    intros Hin. apply in_map_iff in Hin. destruct Hin as (y & Ey & _). cbn in Ey. lia.
+    intros Hin. apply in_map_iff in Hin. destruct Hin as (y & Ey & Hy). cbn [td_seq] in Ey.
+    unfold near_segs in Hn. rewrite Forall_forall in Hn.
+    rewrite off32_self in Ey by exact Hi. rewrite seg_td_off in Ey by auto. lia.
 Qed.
 
 (* ------------------------------------------------------------------ when both parse the same *)
@@ -282,15 +323,16 @@ Definition prefix_stable {R} (parse : bytes -> option R) : Prop :=
 
 Lemma parse_agree {R} (parse : bytes -> option R) sq pre rest n :
   prefix_stable parse -> sq = pre ++ rest -> length sq = n ->
-  (N.of_nat (length pre) <? N.of_nat n) && opt_some (parse sq) = false ->
+  (N.of_nat (length pre) <? N.of_nat n) && opt_some (parse sq) && negb (opt_some (parse pre)) = false ->
   parse sq = parse pre.
 Proof.
-  intros St E L H. apply andb_false_iff in H. destruct H as [H|H].
-  - apply N.ltb_ge in H. subst sq. rewrite app_length in L.
+  intros St E L H.
+  destruct (N.of_nat (length pre) <? N.of_nat n) eqn:Hh.
+  - cbn [andb] in H. destruct (parse pre) eqn:Ep.
+    + rewrite E. now apply St.
+    + destruct (parse sq) eqn:Es; [discriminate | reflexivity].
+  - apply N.ltb_ge in Hh. subst sq. rewrite app_length in L.
     assert (rest = []) as -> by (destruct rest; [reflexivity | cbn in L; lia]). now rewrite app_nil_r.
-  - destruct (parse sq) eqn:Es; [discriminate|].
-    destruct (parse pre) eqn:Ep; [|reflexivity].
-    rewrite E, (St _ rest _ Ep) in Es. discriminate.
 Qed.
 
 Lemma any_placed_false m n : forall off, any_placed m off n = false ->
@@ -313,7 +355,8 @@ Qed.
 (* ------------------------------------------------------------------ one direction, one segment in any order *)
 Definition drel2 (data0 : list tcpdata) (d : sdir) (isn : N) (tds : list tcpdata) : Prop :=
   tds = data0 ++ map (seg_td isn) (d_segs d) /\ pdisj (d_segs d) /\ Forall nonempty (d_segs d) /\
-  map_segs (d_map d) (d_segs d) /\ d_recv d = length (concat (map snd (d_segs d))).
+  map_segs (d_map d) (d_segs d) /\ d_recv d = length (concat (map snd (d_segs d))) /\
+  isn < two32 /\ near_segs (d_segs d).
 
 Lemma new_seg_disjoint m (segs : list seg) off (pay : bytes) :
   map_segs m segs -> Forall nonempty segs -> pay <> [] ->
@@ -337,7 +380,7 @@ Qed.
 
 Lemma dir_advance2 data0 d isn tds seq (pay : bytes) :
   data0_ok isn data0 -> seq < two32 -> pay <> [] -> drel2 data0 d isn tds ->
-  (seq <=? isn) = false -> any_placed (d_map d) (seq_offset isn seq) (length pay) = false ->
+  (two31 - 1 <=? seq_offset isn seq) = false -> any_placed (d_map d) (seq_offset isn seq) (length pay) = false ->
   let off := seq_offset isn seq in
   let m := place (d_map d) off pay in
   let n := (d_recv d + length pay)%nat in
@@ -347,9 +390,10 @@ Lemma dir_advance2 data0 d isn tds seq (pay : bytes) :
   (exists rest, squeezed sg = prefix_from m n 0 ++ rest) /\ length (squeezed sg) = n /\
   segs_disjoint_b sg = true.
 Proof.
-  intros H0 Hs Hp (Ht & D & NE & Hm & Hr) Hw Ha off m n sg.
+  intros H0 Hs Hp (Ht & D & NE & Hm & Hr & Hi & Hnear) Hw Ha off m n sg.
   apply N.leb_gt in Hw.
-  assert (Hoff : isn + 1 + seq_offset isn seq = seq) by (rewrite seq_offset_nowrap by assumption; lia).
+  assert (Hoff : (isn + 1 + seq_offset isn seq) mod two32 = seq) by (now apply seq_offset_inv).
+  assert (Hnear' : near_segs sg) by (apply Forall_app; split; [exact Hnear | constructor; [exact Hw | constructor]]).
   assert (D' : pdisj sg) by (apply pdisj_snoc; [exact D | now apply (new_seg_disjoint (d_map d))]).
   assert (NE' : Forall nonempty sg) by (apply Forall_app; split; [exact NE | constructor; [exact Hp | constructor]]).
   assert (Hm' : map_segs m sg) by (now apply map_segs_place).
@@ -423,17 +467,22 @@ Proof.
 Qed.
 
 Lemma retrans_exact_dup isn data0 (segs : list seg) seq (pay : bytes) :
-  data0_ok isn data0 -> isn < seq -> seq < two32 ->
+  data0_ok isn data0 -> isn < two32 -> seq < two32 -> near_segs segs -> seq_offset isn seq < two31 - 1 ->
   is_retrans (data0 ++ map (seg_td isn) segs) (mkTd seq pay) = exact_dup segs (seq_offset isn seq) pay.
 Proof.
-  intros H0 H1 H2. unfold is_retrans, exact_dup. rewrite existsb_app. cbn [td_seq td_data].
+  intros H0 Hi Hs Hn Hw. unfold is_retrans, exact_dup. rewrite existsb_app. cbn [td_seq td_data].
   assert (existsb (fun d => (td_seq d =? seq) && bytes_eqb (td_data d) pay) data0 = false) as ->.
-  { destruct H0 as [-> | ->]; [reflexivity|]. cbn. assert (isn =? seq = false) as -> by (apply N.eqb_neq; lia). reflexivity. }
-  cbn [orb td_seq td_data]. rewrite seq_offset_nowrap by assumption.
-  induction segs as [|x l IH]; [reflexivity|]. cbn [map existsb seg_td td_seq td_data]. rewrite IH. f_equal. f_equal.
-  destruct (fst x =? seq - isn - 1) eqn:E.
-  - apply N.eqb_eq in E. apply N.eqb_eq. lia.
-  - apply N.eqb_neq in E. apply N.eqb_neq. lia.
+  { destruct H0 as [-> | ->]; [reflexivity|]. cbn.
+    assert (isn =? seq = false) as -> by (apply N.eqb_neq; intros E; symmetry in E; revert E; now apply seq_offset_near_neq).
+    reflexivity. }
+  cbn [orb]. unfold near_segs in Hn.
+  induction segs as [|x l IH]; [reflexivity|]. inversion Hn as [|? ? Nx Nl]; subst.
+  cbn [map existsb seg_td td_seq td_data]. rewrite (IH Nl). f_equal. f_equal.
+  destruct (fst x =? seq_offset isn seq) eqn:E.
+  - apply N.eqb_eq in E. apply N.eqb_eq. rewrite E. now apply seq_offset_inv.
+  - apply N.eqb_neq in E. apply N.eqb_neq. intros X. apply E.
+    rewrite <- (seq_offset_inv isn seq Hi Hs) in X.
+    apply (add_mod_inj isn); [unfold two31, two32 in *; lia | apply seq_offset_lt32 | exact X].
 Qed.
 
 Section Reorder.
@@ -450,12 +499,13 @@ Section Reorder.
   (* the three flags of a not yet reported direction, unpacked *)
   Lemma classify_dir_false {R} (parse : bytes -> option R) d isn seq (pay : bytes) :
     d_done d = false -> classify_dir parse d isn seq pay = (false, false, false) ->
-    (seq <=? isn) = false /\
+    (two31 - 1 <=? seq_offset isn seq) = false /\
     any_placed (d_map d) (seq_offset isn seq) (length pay) && negb (exact_dup (d_segs d) (seq_offset isn seq) pay) = false /\
     segs_disjoint_b (d_segs d ++ [(seq_offset isn seq, pay)])
     && (N.of_nat (length (prefix_from (place (d_map d) (seq_offset isn seq) pay) (d_recv d + length pay) 0))
         <? N.of_nat (d_recv d + length pay))
-    && opt_some (parse (squeezed (d_segs d ++ [(seq_offset isn seq, pay)]))) = false.
+    && opt_some (parse (squeezed (d_segs d ++ [(seq_offset isn seq, pay)])))
+    && negb (opt_some (parse (prefix_from (place (d_map d) (seq_offset isn seq) pay) (d_recv d + length pay) 0))) = false.
   Proof. unfold classify_dir. intros ->. intros [= -> H ->]. auto. Qed.
 
   (* an exact retransmission changes nothing on either side; otherwise model and specification parse
@@ -474,8 +524,8 @@ Section Reorder.
   Proof.
     intros St H0 Hs Hp Hd Hrel Hc m n sg.
     destruct (classify_dir_false parse d isn seq pay Hd Hc) as (Hw & Ha & Hg).
-    pose proof Hrel as (Ht & D & NE & Hm & Hr).
-    assert (Hlt : isn < seq) by (now apply N.leb_gt in Hw).
+    pose proof Hrel as (Ht & D & NE & Hm & Hr & Hi & Hnear).
+    assert (Hlt : seq_offset isn seq < two31 - 1) by (now apply N.leb_gt in Hw).
     assert (Hre : is_retrans tds (mkTd seq pay) = exact_dup (d_segs d) (seq_offset isn seq) pay).
     { rewrite Ht. now apply retrans_exact_dup. }
     destruct (exact_dup (d_segs d) (seq_offset isn seq) pay) eqn:Ex.
@@ -513,7 +563,7 @@ Section Reorder.
     change (cip id, sip, cport id, 80) with (ckey id). change (sip, cip id, 80, cport id) with (skey id).
     destruct (cache_get fkey_eqb st (ckey id)) as [f|] eqn:G; cbn [rel2] in R.
     - destruct R as (F1 & F2 & F3 & F4 & F5 & F6 & Rc & Rs & Rn).
-      rewrite Hpay. rewrite (on_flow_client parse_req parse_resp req_min st id _ _ _ _ b r f F1 F3).
+      rewrite Hpay. rewrite (on_flow_client parse_req parse_resp req_min resp_min st id _ _ _ _ b r f F1 F3).
       unfold dir_data in Hdd.
       destruct (d_done (sc_c c)) eqn:Dc.
       + (* request already reported: the segment is discarded *)
@@ -598,7 +648,7 @@ Section Reorder.
     rewrite (get_skey st id K).
     destruct (cache_get fkey_eqb st (ckey id)) as [f|] eqn:G; cbn [rel2] in R.
     - destruct R as (F1 & F2 & F3 & F4 & F5 & F6 & Rc & Rs & Rn).
-      rewrite Hpay. rewrite (on_flow_server parse_req parse_resp resp_min st id _ _ _ _ b r f F2 F4).
+      rewrite Hpay. rewrite (on_flow_server parse_req parse_resp req_min resp_min st id _ _ _ _ b r f F2 F4).
       unfold dir_data in Hdd.
       destruct (d_done (sc_s c)) eqn:Ds.
       + injection Hdd as <- <-. rewrite F6. cbn [negb andb]. rewrite (finish_server st id f _ K).
@@ -666,12 +716,12 @@ Section Reorder.
   (* ---- the opening SYN of a new connection ---- *)
   Lemma sim_open2 st cs e :
     Inv2 st cs -> conn_lookup (e_conn e) cs = None ->
-    e_client e = true -> e_syn e = true -> e_pay e = [] ->
+    e_client e = true -> e_syn e = true -> e_pay e = [] -> e_seq e < two32 ->
     N.of_nat (S (length cs)) <= c_cap st ->
     let cs1 := mkConn (e_conn e) (dir_new (Some (e_seq e))) (dir_new None) :: cs in
     exists st1, stepM st (wire e) = (st1, ONone) /\ Inv2 st1 cs1 /\ c_cap st1 = c_cap st.
   Proof.
-    intros (K & Len & R) L Hc Hsyn Hpay Hcap cs1. set (id := e_conn e) in *.
+    intros (K & Len & R) L Hc Hsyn Hpay Hseq Hcap cs1. set (id := e_conn e) in *.
     pose proof (R id) as Rid. rewrite L in Rid.
     destruct (cache_get fkey_eqb st (ckey id)) as [f|] eqn:G; [contradiction|].
     rewrite (wire_client e Hc). fold id. unfold step. cbn [g_src g_dst g_sport g_dport g_syn].
@@ -690,7 +740,7 @@ Section Reorder.
       destruct (id =? id') eqn:Eid.
       + apply N.eqb_eq in Eid. subst id'. rewrite G. rewrite (keqb_refl fkey_eqb fkey_eqb_eq).
         cbn. unfold flow_rel2, flow_init. cbn. rewrite Hpay. repeat split; auto; try discriminate.
-        * intros _. exists (e_seq e). split; [reflexivity|]. unfold drel2. cbn. repeat split; auto; constructor.
+        * intros _. exists (e_seq e). split; [reflexivity|]. unfold drel2, near_segs. cbn. repeat split; auto; constructor.
         * apply map_is_empty.
       + destruct (cache_get fkey_eqb st (ckey id')); [exact R|].
         rewrite (keqb_neq fkey_eqb fkey_eqb_eq); [exact R|].
@@ -700,12 +750,12 @@ Section Reorder.
   (* ---- the server's SYN of a known connection ---- *)
   Lemma sim_synack2 st cs e c :
     Inv2 st cs -> conn_lookup (e_conn e) cs = Some c ->
-    e_client e = false -> e_pay e = [] -> d_isn (sc_s c) = None ->
+    e_client e = false -> e_pay e = [] -> d_isn (sc_s c) = None -> e_seq e < two32 ->
     let cs1 := conn_replace (mkConn (sc_id c) (sc_c c)
                  (mkDir (Some (e_seq e)) (d_map (sc_s c)) (d_recv (sc_s c)) (d_done (sc_s c)) (d_segs (sc_s c)))) cs in
     stepM st (wire e) = (st, ONone) /\ Inv2 st cs1.
   Proof.
-    intros HI L Hc Hpay Hn cs1. set (id := e_conn e) in *.
+    intros HI L Hc Hpay Hn Hseq cs1. set (id := e_conn e) in *.
     pose proof (lookup_id _ _ _ L) as Hid.
     pose proof HI as (K & Len & R). specialize (R id). rewrite L in R.
     rewrite (wire_server e Hc). fold id. unfold step. cbn [g_src g_dst g_sport g_dport g_syn].
@@ -720,7 +770,7 @@ Section Reorder.
       split; [exact F5|]. split; [exact F6|]. split; [exact Rc|]. split; [|intros _; discriminate].
       intros Ds. cbn [d_done] in Ds. specialize (Rs Ds). rewrite Hn in Rs. destruct Rs as (-> & Hm & Hr & Hsg).
       cbn [d_isn]. unfold drel2. cbn [d_segs d_map d_recv]. rewrite Hsg. cbn.
-      split; [reflexivity|]. split; [exact I|]. split; [constructor|]. split; [|exact Hr].
+      split; [reflexivity|]. split; [exact I|]. split; [constructor|]. split; [|split; [exact Hr | split; [exact Hseq | constructor]]].
       intros i. rewrite Hm. now destruct (N.to_nat i).
     - destruct R as (_ & _ & X). contradiction.
   Qed.
@@ -741,7 +791,7 @@ Section Reorder.
         destruct (d_isn (sc_s c)) eqn:Hn; [now inversion Hs|].
         destruct (e_pay e) eqn:Hpay; [|now inversion Hs].
         injection Hs as <- <-.
-        destruct (sim_synack2 st cs e c HI L Hc Hpay Hn) as [E I1].
+        destruct (sim_synack2 st cs e c HI L Hc Hpay Hn Hseq) as [E I1].
         exists st. auto.
       + destruct (e_pay e) as [|b r] eqn:Hpay.
         * injection Hs as <- <-. exists st. split; [exact (sim_no_payload2 st cs e HI Hsyn Hpay)|]. auto.
@@ -787,7 +837,7 @@ Section Reorder.
     apply orb_false_iff in Hw, Hg, Hu, Hf.
     destruct Hw as [-> ->], Hg as [-> ->], Hu as [-> ->], Hf as [-> ->].
     destruct (step_sim2 st cs e cs1 o HI (Hseq e (or_introl eq_refl)) Hs Hc) as (st1 & E & I1 & C1).
-    { etransitivity; [|exact Hcap]. pose proof (sfinal_grows parse_req parse_resp tr cs1). lia. }
+    { etransitivity; [|exact Hcap]. pose proof (sfinal_grows parse_req parse_resp req_min resp_min tr cs1). lia. }
     rewrite E.
     specialize (IH st1 cs1 I1 (fun e' H => Hseq e' (or_intror H))).
     rewrite Hr, Hk2, C1 in IH. specialize (IH eq_refl eq_refl Hcap).
